@@ -312,3 +312,40 @@ Proof.
   - intros x Hx. rewrite annotate1_defs in Hx. now apply Fr.
   - exists t, c, v, s''. auto.
 Qed.
+
+(* ------------------------------------------------------------------ under an environment *)
+(* the body of a function whose parameters have base types (E0: their types; their classes are good, have these types and
+   are no type names: env_good) *)
+Lemma erase1_block_typed_env sel E0 ss e t : ty_block1 E0 ss e = Some t -> ty_block1 E0 (erase1 sel 0 ss) e = Some t.
+Proof.
+  unfold ty_block1. intros H. destruct (ty_stmts1 E0 ss) as [E'|] eqn:T; [|discriminate].
+  rewrite (erase1_typed sel ss 0 E0 E' T). exact H.
+Qed.
+
+Lemma env_good_ok E s : env_good E s -> env_ok E s.
+Proof. intros EG x t H. exact (proj2 (proj1 (EG x t H))). Qed.
+
+Theorem accept_erase_E1_env kinds g0 f0 ctx sp E0 ss e sel s r ov s' :
+  frag_stmts1 (map fst E0) ss e = true -> NoDup (defs ss) -> wf s -> env_good E0 s -> (forall x, In x (defs ss) -> fresh s x) ->
+  expression_block (gfix g0) (afix kinds (gfix g0) f0) sp (to_block1 sp ss e) ctx s = Ok ((r, ov), s') ->
+  forall g f, (max_depth ss e < S f)%nat ->
+    exists t c v s'',
+      ov = Some c /\ head s' c = Some (bty_head t) /\
+      expression_block (gfix (S (S (S (S g))))) (afix kinds (gfix (S (S (S (S g))))) (S (S f))) sp
+                       (to_block1 sp (erase1 sel 0 ss) e) ctx s = Ok ((None, Some v), s'') /\
+      wf s'' /\ head s'' v = Some (bty_head t).
+Proof.
+  intros Hf Nd W EG Fr H g f Hd.
+  destruct (accepted_block1_env kinds g0 E0 sp ss e f0 ctx s r ov s' Hf W (env_good_ok E0 s EG) H) as (t & c & Ty & -> & Hc).
+  pose proof (side_of_accepted kinds g0 ctx sp ss e f0 s _ s' H) as Sd.
+  assert (Sd' : side_block kinds ctx (erase1 sel 0 ss) e = true).
+  { unfold side_block in *. rewrite erase1_side. exact Sd. }
+  destruct (complete_block_env kinds g ctx sp E0 (erase1 sel 0 ss) e t f s (erase1_block_typed_env sel E0 ss e t Ty) Sd')
+    as (v & s'' & H' & W'' & Hv).
+  - rewrite erase1_defs. exact Nd.
+  - rewrite erase1_depth. exact Hd.
+  - exact W.
+  - exact EG.
+  - intros x Hx. rewrite erase1_defs in Hx. now apply Fr.
+  - exists t, c, v, s''. auto.
+Qed.
